@@ -31,6 +31,8 @@ def explore_cell(cell):
     viol_seen = set()
 
     def run_one(prefix):
+        if cell.get("driver") == "calibrator":
+            return rh.run_calibrator(cfg, prefix, mode=mode)
         return rh.run_protocol(cfg, prefix, mode=mode)
 
     best = {}
@@ -56,12 +58,12 @@ def explore_cell(cell):
         res["caps_hit"] = [f"max_execs={max_execs} reached for shape {cfg['shape']} in mode {mode}"]
     for key, (pre, what, choices) in best.items():
         res["violations"].append({"key": key, "what": f"{what} [cfg={cfg}, mode={mode}, preemptions={pre}]",
-                                  "case": {"cfg": cfg, "mode": mode, "schedule": choices}})
+                                  "case": {"cfg": cfg, "mode": mode, "schedule": choices, "driver": cell.get("driver", "protocol")}})
     if len(outcomes) > 1 and not best:
         (o1, (c1, p1)), (o2, (c2, p2)) = list(outcomes.items())[:2]
         res["violations"].append({"key": "timing-dependent-choice",
                                   "what": f"{len(outcomes)} different sampler/learn sequences depending on the schedule, e.g. {o1} vs {o2} [cfg={cfg}, mode={mode}]",
-                                  "case": {"cfg": cfg, "mode": mode, "schedule": c1, "schedule2": c2}})
+                                  "case": {"cfg": cfg, "mode": mode, "schedule": c1, "schedule2": c2, "driver": cell.get("driver", "protocol")}})
     st["configs"] = 1
     st["configs_with_2+_schedules"] = 1 if res["evaluations"] >= 2 else 0
     res["states"] = len(states)
@@ -70,10 +72,11 @@ def explore_cell(cell):
 
 
 def replay_case(case):
-    ctl, obs = rh.run_protocol(case["cfg"], case["schedule"], mode=case["mode"])
+    run = rh.run_calibrator if case.get("driver") == "calibrator" else rh.run_protocol
+    ctl, obs = run(case["cfg"], case["schedule"], mode=case["mode"])
     out = [{"key": k, "what": w} for k, w in rh.monitor(obs)]
     if "schedule2" in case:
-        _, obs2 = rh.run_protocol(case["cfg"], case["schedule2"], mode=case["mode"])
+        _, obs2 = run(case["cfg"], case["schedule2"], mode=case["mode"])
         if rh.outcome(obs) != rh.outcome(obs2):
             out.append({"key": "timing-dependent-choice", "what": f"{rh.outcome(obs)} vs {rh.outcome(obs2)}"})
     return out
@@ -116,7 +119,12 @@ def main(ctx):
             for agent in ({"kind": "scripted", "script": [1, 0, 1]}, {"kind": "eps", "eps": 0.5, "seed": S, "alpha": 0.5}):
                 cfg = {"shape": shape, "losses": losses, "agent": agent, "samplers": "with_halton"}
                 cells.append({"cfg": cfg, "mode": "line", "bound": 1 if ctx.quick or sum(shape) > 4 else 2, "max_execs": 30000})
-    ctx.bounds = {"shapes": shapes, "tierA": "all interleavings for shapes [1], [2] (every configuration) and [1,1] (one per loss script; thorough also [3],[1,2],[2,1]), else preemption bound " + ("3" if ctx.quick else "4"),
+    # second driver: the real Calibrator.calibrate (real samplers, model, loss), one calibrate() call per session
+    for shape in ([[2], [1, 2], [2, 2]] if ctx.quick else [[1], [2], [3], [1, 1], [1, 2], [2, 2], [2, 1, 2]]):
+        for agent in ({"kind": "scripted", "script": [1, 0, 1]}, {"kind": "eps", "eps": 0.5, "seed": S, "alpha": 0.5}):
+            for samplers in ("with_halton", "without_halton"):
+                cells.append({"cfg": {"shape": shape, "losses": "real", "agent": agent, "samplers": samplers, "seed": S}, "mode": "sync", "bound": 1 if ctx.quick else 2, "max_execs": 4000, "driver": "calibrator"})
+    ctx.bounds = {"shapes": shapes, "second_driver": "real Calibrator.calibrate on [2],[1,2],[2,2] (thorough: 7 shapes), preemption bound " + ("1" if ctx.quick else "2"), "tierA": "all interleavings for shapes [1], [2] (every configuration) and [1,1] (one per loss script; thorough also [3],[1,2],[2,1]), else preemption bound " + ("3" if ctx.quick else "4"),
                   "tierB_shapes": tierb_shapes, "tierB_preemption_bound": "1" if ctx.quick else "2 (1 for > 4 batches)",
                   "agents": "all scripted action sequences over {0,1} (length <= 3 quick / 4 thorough) + eps-greedy eps {0,.5} seeds {S,S+1}",
                   "loss_scripts": list(rh.LOSS_SCRIPTS), "sampler_sets": ["with_halton", "without_halton"], "cells": len(cells)}
